@@ -91,6 +91,45 @@ def abs_by_sign(p, dot, sg, pc):
     return p
 
 
+def spin_pi_case(T):
+    """the spin overload adds k half turns as k * pi~: pi~ must be pi correctly rounded to the element type -- a coarser constant (float's pi in a double computation)
+    shifts every extra half turn by 8.7e-8 rad, so slerp(x, y, 1, k) misses +-y and the angular position is off by a k"""
+    from laneflow import ceval as CE
+    import math
+    sc = G.scalar(T)
+    w = sc.elem * 8
+    qt, it_ = G.quat(T), G.scalar('int')
+    k = K('spin_pi_%s' % sc.tag, [Par('o', qt, False), Par('a', qt), Par('b', qt), Par('s', sc), Par('i', it_)], '*o = slerp(*a, *b, *s, *i);', CFG)
+    name = 'slerp_spin<%s>.pi' % sc.tag
+
+    def judge(ctx):
+        if ctx.compile_error(k):
+            return []
+        lanes = L.out_lanes(ctx, k, qt)
+        want = CE.b2f(w, CE.f2b(w, math.pi))
+        found = set()
+        for t in lanes.values():
+            for x in tm.walk(t):
+                if x.op == 'fmul':
+                    for i in (0, 1):
+                        c, o = x.args[i], x.args[1 - i]
+                        if c.op == 'const' and o.op in ('sitofp', 'uitofp'):
+                            v = tm.fval(c)
+                            if abs(abs(v) - math.pi) < 1e-3:
+                                found.add(abs(v))
+        if not found:
+            return [R.ob(name, 'spin_constant', R.UNDECIDED, 'no product of the converted spin count with a constant near pi found', kernel=k.source())]
+        res = []
+        for v in sorted(found):
+            ok = v == want
+            res.append(R.ob(name, 'spin_constant', R.PROVED if ok else R.REFUTED,
+                            'the spin count is multiplied by %r, pi correctly rounded to the element type' % v if ok else
+                            'the spin count is multiplied by %r; pi correctly rounded to %s is %r: every extra half turn is off by %.3g rad (slerp(x, y, 1, k) misses +-y by k times that)' % (v, T, want, abs(v - math.pi)),
+                            kernel=k.source()))
+        return res
+    return R.Case(name, [k], judge)
+
+
 def spin_endpoint(got, cx):
     """a = 1 in the spin overload: the sines are sin(-k*pi~) and sin(theta + k*pi~) with k an integer and pi~ the rounded pi.  Read pi~ as pi:
     sin(k pi) = 0 and cos(k pi) = sigma with sigma^2 = 1.  Returns the rewritten lanes and sigma (None if no such atom occurs)."""
@@ -625,6 +664,7 @@ def cases(tier):
         cs.append(interp_case('shortMix', T))
         cs += lerp_cases(T)
         cs += dualquat_cases(T)
+        cs.append(spin_pi_case(T))
     cs += layout_cases(tier)
     cs += canaries()
     return cs
